@@ -46,7 +46,8 @@ OBLIGATIONS = [
 ]
 TRUSTED = [
     "Falcon: middleware order, `req.content_length`, `req.bounded_stream` (= at most Content-Length bytes of wsgi.input, "
-    "zero bytes without Content-Length), HTTP error → status mapping (statuses are read from the installed falcon)",
+    "zero bytes without Content-Length), HTTP error → status mapping (statuses are read from the installed falcon), and "
+    "`resp.complete = True` in a process_request hook skipping the remaining hooks, routing and the responder",
     "zstandard / zlib behave as the reader / decompress-object contracts of Spec/C18.lean say (exercised, not proved); the "
     "one-shot zstd call allocates the declared size (which was checked ≤ cap) — library behaviour",
     "the reference decoders of the oracle (zlib.decompressobj / ZstdDecompressor.decompressobj used directly)",
